@@ -961,7 +961,9 @@ D_GEOMS = [
     ([(1, 1, 1), (1, 1, 1), (1, 1, -1)], (10000, 25000, 0)),
     ([(0, -1, 1), (-1, 1, 0), (1, 0, -1)], (25000, 25000, 25000)),
 ]
-D_NAMES = ("m.pqr", "x.y.pqr", "NOEXT")
+# output names: the written input must name exactly this file
+D_NAMES = ("m.pqr", "x.y.pqr", "NOEXT", "model.PQR", "x.pqr.txt",
+           "model_pH7.5", "in.cif")
 D_HEADERS = ((), ("REMARK-generated-by", "REMARK-total-charge"),
              ("REMARK-numbers-far",))
 
@@ -1041,15 +1043,19 @@ def run_dump(case, col):
     for sites, radii in D_GEOMS:
         atoms = place(sites, radii, scale, offset)
         for hdr in D_HEADERS:
-            name = D_NAMES[k % len(D_NAMES)]
-            eol = "\r\n" if k % 2 else "\n"
-            k += 1
-            col.nontrivial.add(f"dump|{case['scale']}|{case['offset']}|"
-                               f"{layout}|{k}")
-            dump_one(atoms, layout, hdr, name, eol, col,
-                     {"kind": "one-dump", "atoms": [list(a) for a in atoms],
-                      "layout": layout, "header": list(hdr), "name": name,
-                      "eol": eol})
+            # without header lines (where the written input is inspected)
+            # every output name is used; with header lines one per file
+            names = D_NAMES if not hdr else (D_NAMES[k % len(D_NAMES)],)
+            for name in names:
+                eol = "\r\n" if k % 2 else "\n"
+                k += 1
+                col.nontrivial.add(f"dump|{case['scale']}|{case['offset']}|"
+                                   f"{layout}|{k}")
+                dump_one(atoms, layout, hdr, name, eol, col,
+                         {"kind": "one-dump",
+                          "atoms": [list(a) for a in atoms],
+                          "layout": layout, "header": list(hdr),
+                          "name": name, "eol": eol})
 
 
 E_SEQS = {
@@ -1064,7 +1070,7 @@ E_SHIFTS = {"0": (0, 0, 0), "+500": (500, 500, 500), "-500": (-500, -500, -500),
             "+5000": (5000, 2000, 1000)}
 E_OPTS = {"plain": [], "ws": ["--whitespace"], "chain": ["--keep-chain"],
           "ws+chain": ["--whitespace", "--keep-chain"]}
-E_NAMES = ("out.pqr", "a.b.pqr")
+E_NAMES = ("out.pqr", "a.b.pqr", "out.PQR", "model_pH7.5", "x.pqr.txt")
 
 
 def _e2e_input(case):
@@ -1320,7 +1326,7 @@ def enumerate_cases(tier, seed):
                     e2e.append({"kind": "e2e", "seq": seq, "ff": ff,
                                 "opts": optk, "shift": shift,
                                 "waters": seq in ("AGS", "long"),
-                                "out": E_NAMES[len(e2e) % 2]})
+                                "out": E_NAMES[len(e2e) % len(E_NAMES)]})
     cases += e2e
     if thorough:
         cases.append({"kind": "e2e", "file": "1AFS.pdb", "ff": "AMBER",
